@@ -201,8 +201,9 @@ func (t *ClientTransport) Send(packets ...*parser.Packet) {
 	defer r.Close()
 
 	// Rapidly read the response body without heap allocation.
+	// A single Read can return less than 2 bytes, so read until the buffer is full.
 	var respBody [2]byte
-	r.Read(respBody[:])
+	io.ReadFull(r, respBody[:])
 
 	rWeOk := respBody[0] == 'o' && respBody[1] == 'k'
 	if !rWeOk {
